@@ -147,6 +147,9 @@ def apply_env(env):
     import io
     import logging
 
+    import warnings
+
+    warnings.simplefilter("error" if (env or {}).get("warnings") == "error" else "ignore")
     mode = (env or {}).get("logging", "off")
     if mode == "off":
         logging.disable(logging.CRITICAL)
